@@ -32,13 +32,22 @@ print('not reproduced')
 
 class PermSet(object):
     """set(items): iteration order is an ARBITRARY permutation (assumed contract of set iteration for objects hashed by identity)"""
-    def __init__(self, items):
-        seen, out = set(), []
+    def __init__(self, items=()):
+        self.items = []
         for x in items:
-            if id(x) not in seen:
-                seen.add(id(x))
-                out.append(x)
-        self.items = out
+            self.add(x)
+
+    def add(self, x):
+        if not any(y is x or (type(y) in (str, int, tuple) and y == x) for y in self.items):
+            self.items.append(x)
+
+    def update(self, *others):
+        for o in others:
+            for x in o:
+                self.add(x)
+
+    def __contains__(self, x):
+        return any(y is x or (type(y) in (str, int, tuple) and y == x) for y in self.items)
 
     def permuted(self):
         perms = list(itertools.permutations(self.items))
@@ -479,6 +488,25 @@ d.own
 b = Base() if d else D()
 b.kind
 ''', [(13, 2), (15, 2)], [(13, 2), (15, 2)]),
+    ('merged-value-attribute', '''class A:
+    def shared(self): return 1
+    only_a = 1
+class B:
+    def shared(self): return 2
+    only_b = 2
+class C(B):
+    def shared(self): return 3
+def pick(c):
+    if c == 1:
+        v = A()
+    elif c == 2:
+        v = B()
+    else:
+        v = C()
+    v.shared
+    v.only_b
+    return v
+''', [(16, 6)], [(16, 12), (17, 12)]),
     ('closures-globals', '''import sys, os.path
 from os import path as p1, sep as s1
 count = 0
@@ -513,7 +541,7 @@ print('REPRODUCED: the answer depends on the iteration order of a set' if outs[0
 
 
 @harness(['C17'], 'supp.linter.lint / supp.assistant.assist / location [every set(...) of the analysis modules iterates in an adversarial order]',
-         bounded='4 programs (branches, loops and try, class hierarchy with instance attributes, closures / globals / imports / comprehension) x '
+         bounded='5 programs (branches, loops and try, class hierarchy with instance attributes, an attribute of a value merged from three branches, closures / globals / imports / comprehension) x '
                  '{lint, assist and location at 1-2 cursor positions} x 4 iteration orders of every set constructed through set() / frozenset() '
                  '(insertion order, reversed, rotated, interleaved)')
 def api_independent_of_set_order(run):
